@@ -222,7 +222,7 @@ pub fn build(quick: bool) -> PropRun {
     // (a)
     let session = vec![send(0, 0, 0, Reliable, 3000), send(0, 0, 1, Unreliable, 40), send(1, 1, 0, Reliable, 50), send(2, 0, 0, Persistent, 1500), send(4, 0, 1, Reliable, 10), send(5, 1, 1, Unreliable, 1449)];
     for cfg in [LwCfg { pwin: 4, fwin: 4, ..LwCfg::small() }, LwCfg { pwin: 4096, fwin: 4096, pbase: [0xFFFFE, 0xFFFFF], fbase: [0xFFFF_FFFE, 0xFFFF_FFF0], ..LwCfg::small() }, LwCfg { pwin: 8, fwin: 8, rx_alloc: [3 * FRAG, 3 * FRAG], bw: [20_000, 20_000], ..LwCfg::small() }] {
-        scs.push(lw_hostile("C03.lw-hostile", cfg.clone(), session.clone(), if quick { 8 } else { 12 }, false));
+        scs.push(lw_hostile("C03.lw-hostile", cfg.clone(), session.clone(), if quick { 6 } else { 12 }, false));
         if !quick { scs.push(lw_hostile("C03.lw-hostile-pairs", cfg, session.clone(), 8, true)); }
     }
     // (b)
@@ -254,7 +254,7 @@ pub fn build(quick: bool) -> PropRun {
     units.extend(crate::c04::receiver_units(quick));
     PropRun { level: "fault_enumeration", scenarios: scs, units, replay_case: Some(replay_case_c03), summary: Summary {
         rule: "every explored execution runs under catch_unwind with a per-call work budget (2*10^6 loop iterations counted by the fuel hooks) and a 30 s wall-clock watchdog: (a) every hostile data/ack/sync frame of a state-relative boundary alphabet injected into either endpoint at every round of a link-world session, followed by step spacings 0/1/20/2000 ms; (b) every payload of <= 1-2 bytes after every type byte and a list of frames with extreme fields, from the connected address, from a stranger and towards the client, in the pending/active/closing/closed states, after which an honest second client must still be served; (c) all TFRC event sequences of C14; (e) the parser sweeps of C16 with the panic oracle; (d) a cross-section of the fault explorations of C01, C02, C05, C07-C11, C13, C17".into(),
-        bounds: json!({"lw_rounds": if quick { 8 } else { 12 }, "lw_pairs": !quick, "flood_payload_len": if quick { 1 } else { 2 }, "flood_type_bytes": if quick { "0-13, 32, 64, ..., 250-255" } else { "all 256" }, "extreme_frames": extreme_frames().len(), "tfrc_plans": plans, "fuel_per_call": 2_000_000}),
+        bounds: json!({"lw_rounds": if quick { 6 } else { 12 }, "lw_pairs": !quick, "flood_payload_len": if quick { 1 } else { 2 }, "flood_type_bytes": if quick { "0-13, 32, 64, ..., 250-255" } else { "all 256" }, "extreme_frames": extreme_frames().len(), "tfrc_plans": plans, "fuel_per_call": 2_000_000}),
         assumptions: vec!["build profile: release with debug-assertions and overflow-checks on, so a debug_assert or arithmetic overflow reachable from network input counts as a panic".into(),
                           "a hostile peer may legitimately ruin its own connection; what is asked is that no call panics or fails to return and that other connections are still served".into()],
         witness_names: { let mut w = WITNESSES.to_vec(); while w.len() < 20 { w.push("-"); } w.push("hostile frame injected"); while w.len() < 32 { w.push("-"); } w.extend_from_slice(crate::eprops::EW_WITNESSES); w }, extra: json!({}), exhaustive: true } }
